@@ -75,5 +75,9 @@ LargeMessages ==
 TripleLattice ==
     UNION {{SentCase(c, sv, "triple-lattice", F) : sv \in ThreeAtATime(CommandTable[c].schema, F, TRUE)} : c \in {1, 2, 6, 10, 12}}
 
-MC_Cases == TripleLattice \cup LargeMessages \cup TopSubsets \cup NestedSubsets \cup FullRequests \cup SubCommands \cup ParamOrders \cup ValueLattice \cup PairLattice \cup PositionCases
+\* the words of the source's dictionary in every text member (also one level down), in company
+DictCases ==
+    UNION {{SentCase(c, sv, "dictionary", F) : sv \in DictLattice(CommandTable[c].schema, F, TRUE)} : c \in {1, 2, 6, 10, 12}}
+
+MC_Cases == DictCases \cup TripleLattice \cup LargeMessages \cup TopSubsets \cup NestedSubsets \cup FullRequests \cup SubCommands \cup ParamOrders \cup ValueLattice \cup PairLattice \cup PositionCases
 =============================================================================
